@@ -53,6 +53,36 @@ class Capture:
         return False
 
 
+class CeilCapture:
+    """stands in for the name `np` inside pyttb.gcp.samplers (harness process only): numpy, with ceil recording (float argument as an
+    exact rational, answer) — the float quotient / product of the oversampling rule of samplers.zeros are ORACLES of the model"""
+
+    class _Proxy:
+        def __init__(self, np, rec):
+            self._np, self._rec = np, rec
+
+        def __getattr__(self, k):
+            return getattr(self._np, k)
+
+        def ceil(self, x):
+            r = self._np.ceil(x)
+            if self._np.ndim(x) == 0 and math.isfinite(float(x)):
+                fr = Fraction(float(x))
+                self._rec.append([fr.numerator, fr.denominator, int(r)])
+            return r
+
+    def __enter__(self):
+        import numpy as np
+        from pyttb.gcp import samplers
+        self.mod, self.orig, self.calls = samplers, samplers.np, []
+        samplers.np = CeilCapture._Proxy(np, self.calls)
+        return self
+
+    def __exit__(self, *exc):
+        self.mod.np = self.orig
+        return False
+
+
 def _numerators(block):
     out = []
     for row in block.reshape((block.shape[0], -1)):
@@ -108,7 +138,7 @@ def run_stratified(a, semi):
     meta = {"total": a["cn"] + a["cz"], "short": (not semi) and size == nnz}
     np.random.seed(a["seed"])
     try:
-        with Capture(a["force"], [a["cn"], a["cz"]] if a.get("via_poisson") else None) as cap:
+        with Capture(a["force"], [a["cn"], a["cz"]] if a.get("via_poisson") else None) as cap, CeilCapture() as ceilcap:
             if a.get("via_poisson") and not semi:
                 # the uniform GRADIENT sampler of a sparse tensor: stratified with Poisson(n*nnz/size), Poisson(n*(size-nnz)/size) counts;
                 # the two Poisson outcomes are inputs (any count can be drawn, also more nonzero samples than nonzeros)
@@ -145,7 +175,8 @@ def run_stratified(a, semi):
         meta["total"] = a["cn"] + a["cz"]
     return {"subs": subs_l, "vals": _ivals(np, vals), "vals_shape": [int(d) for d in np.shape(vals)],
             "weights": [_fr(w) for w in np.atleast_1d(wgts)], "weights_shape": [int(d) for d in np.shape(wgts)],
-            "nidx": nidx, "draws": draws, "meta": meta}
+            "nidx": nidx, "draws": draws, "meta": meta,
+            "zceil": list(ceilcap.calls), "zrows": (int(cap.uniform[0].shape[0]) if cap.uniform else -1)}
 
 
 # --------------------------------------------------------------------------------------- solves
@@ -254,6 +285,7 @@ def run_solve(a):
     return {"ests": [_fr(v) for v in ests], "trace": [_fr(v) for v in info["f_est_trace"]], "n_epoch": int(info["n_epoch"]),
             "nfails": int(opt._nfails), "ret_cands": cands, "lb_ok": bool(mn >= lb),
             "boundary_lb_ok": all(m >= lb for m in bmin), "min_entry": mn,
+            "lb": (None if lb == -np.inf else _fr(lb)), "min_entry_q": _fr(mn), "bmin": [_fr(m) for m in bmin],
             "init_unchanged": start_ok and all(np.array_equal(x, y) for x, y in zip(init_copy, M0.factor_matrices)),
             "step_trace_len": int(len(info["step_trace"]))}
 
@@ -652,7 +684,7 @@ def run_lbfgsb(a):
             outs.append(_lb_one_solve(np, optimizers, fg, opt, a, spy.seen, user_cb))
     return {"outs": outs, "callback_restored": _restored(opt, before, user_cb),
             "callback_called": (len(calls) > 0) if a["callback"] else None,
-            "meta": {"abandoned": any(o["abandoned"] for o in outs), "maxiter0": a.get("opts", {}).get("maxiter") == 0}}
+            "meta": {"abandoned": any(o["abandoned"] for o in outs)}}
 
 
 def run_lbfgsb_reuse(a):
@@ -669,25 +701,32 @@ def run_lbfgsb_reuse(a):
                 with ScipySpy([opt]) as spy:
                     o = _lb_one_solve(np, optimizers, fg, opt, p, spy.seen, None)
                 sink.append({"flat": [o["final_f"]] + [v for f in o["factors"] for row in f for v in row],
-                             "le": Fraction(o["f_end"]) <= Fraction(o["f0"]), "abandoned": o["abandoned"]})
+                             "le": Fraction(o["f_end"]) <= Fraction(o["f0"]), "f_end": o["f_end"], "f0": o["f0"],
+                             "abandoned": o["abandoned"]})
             except Exception as ex:
                 sink.append({"exc": type(ex).__name__, "msg": str(ex)[:120]})
     return {"reused": reused, "fresh": fresh, "restored": _restored(shared, before, None),
-            "meta": {"abandoned": any(r.get("abandoned") for r in reused + fresh), "maxiter0": a.get("opts", {}).get("maxiter") == 0}}
+            "meta": {"abandoned": any(r.get("abandoned") for r in reused + fresh)}}
 
 
-def lb_scale(o):
-    """one common denominator for every vector / matrix entry and the bound of one observed solve; another for the objective values"""
-    vals = list(o["x0"]) + list(o["x"]) + list(o["weights"]) + list(o["res_weights"]) + [v for f in o["start"] + o["factors"] for row in f for v in row]
-    if o["lb"] is not None:
-        vals.append(o["lb"])
+def lb_scale(outs):
+    """one common denominator for every vector / matrix entry and the bound of the observed solves of one case; another for the
+    objective values"""
+    if isinstance(outs, dict):
+        outs = [outs]
+    vals, fvals = [], []
+    for o in outs:
+        vals += list(o["x0"]) + list(o["x"]) + list(o["weights"]) + list(o["res_weights"]) + [v for f in o["start"] + o["factors"] for row in f for v in row]
+        if o["lb"] is not None:
+            vals.append(o["lb"])
+        fvals += [o["f0"], o["f_end"], o["final_f"], o["scipy_f"]]
     L = 1
     for x in vals:
         d = Fraction(x).denominator
         L = L * d // math.gcd(L, d)
     z = lambda x: int(Fraction(x) * L)
     fl = 1
-    for x in (o["f0"], o["f_end"], o["final_f"], o["scipy_f"]):
+    for x in fvals:
         d = Fraction(x).denominator
         fl = fl * d // math.gcd(fl, d)
     zf = lambda x: int(Fraction(x) * fl)
@@ -879,31 +918,16 @@ def _w_empty():
 
 
 
-def _lb_witness_args(opts):
+def lb_witness_args(opts):
+    """the 2x3 witness problem of the repaired findings C13-L1 (maxls=1: abandoned line search) and C13-L2 (maxiter=0): fixed
+    regression cases of c13.gen_cases"""
     return {"shape": [2, 3], "data": [1, 0, 2, 3, 0, 1], "R": 1, "init": [[[1.0], [0.5]], [[0.5], [1.0], [1.5]]],
             "obj": "gaussian", "callback": False, "mask": None, "opts": opts}
 
 
-def _w_lb_final_f():
-    o = run_lbfgsb(_lb_witness_args({"maxls": 1, "maxiter": 100}))
-    r = o["outs"][0]
-    if Fraction(r["final_f"]) != Fraction(r["f_end"]):
-        return (f"LBFGSB(maxls=1) on the 2x3 witness ({r['task']}): info['final_f'] = {float(Fraction(r['final_f']))}, the returned model "
-                f"has objective {float(Fraction(r['f_end']))}, the start {float(Fraction(r['f0']))}")
-    return None
-
-
-def _w_lb_maxiter0():
-    try:
-        run_lbfgsb(_lb_witness_args({"maxiter": 0}))
-    except Exception as ex:
-        return f"LBFGSB(maxiter=0).solve raises {type(ex).__name__}: {str(ex)[:80]}"
-    return None
-
-
-# only the OPEN findings are replayed as witnesses; the inputs of the repaired ones (A-35, A-36, A-37, A-48, C13-S2) are fixed
-# regression cases in c13.gen_cases
-WITNESSES = {"C13-S3": _w_empty, "A-47": _w_a47, "C13-S1": _w_short, "C13-L1": _w_lb_final_f, "C13-L2": _w_lb_maxiter0}
+# only the OPEN findings are replayed as witnesses; the inputs of the repaired ones (A-35, A-36, A-37, A-48, C13-S2, C13-L1, C13-L2)
+# are fixed regression cases in c13.gen_cases
+WITNESSES = {"C13-S3": _w_empty, "A-47": _w_a47, "C13-S1": _w_short}
 
 
 # --------------------------------------------------------------------------------------- GCPSampler configuration table
@@ -996,12 +1020,24 @@ def run_config(a):
         kw["function_sampler"], kw["function_samples"] = K[a["kind"]], req(a["req"])
     else:
         kw["gradient_sampler"], kw["gradient_samples"] = K[a["kind"]], req(a["req"])
+    calls = []
+    o_ceil = samplers.ceil
+
+    def w_ceil(x):          # math.ceil of a float quotient: argument (exact dyadic rational) and answer recorded
+        r = o_ceil(x)
+        fr = Fraction(float(x))
+        calls.append([fr.numerator, fr.denominator, int(r)])
+        return r
+    samplers.ceil = w_ceil
     try:
-        g = samplers.GCPSampler(X, **kw)
+        try:
+            g = samplers.GCPSampler(X, **kw)
+        finally:
+            samplers.ceil = o_ceil
     except (ValueError, ZeroDivisionError) as ex:
-        return {"conf": ["error", type(ex).__name__], "size": size, "nnz": nnz}
+        return {"conf": ["error", type(ex).__name__], "size": size, "nnz": nnz, "ceil_calls": calls}
     fn = g._fsampler if a["side"] == "f" else g._gsampler
-    return {"conf": _read_conf(np, size, nnz, fn), "crng": [int(x) for x in g.crng], "size": size, "nnz": nnz}
+    return {"conf": _read_conf(np, size, nnz, fn), "crng": [int(x) for x in g.crng], "size": size, "nnz": nnz, "ceil_calls": calls}
 
 
 def config_check(a, o):
@@ -1016,11 +1052,28 @@ def config_check(a, o):
     r = a["req"]
     req = "RNone" if r is None else (f"(RInt {gz(r)})" if isinstance(r, int) else f"(RStrat {gz(r[0])} {gz(r[1])})")
     sp = "true" if a["sparse"] else "false"
+    # the table is run with the RECORDED answers of math.ceil (cd_obs: a call fits when its float argument is the quotient the
+    # model asks for, within one rounding, and its answer is the exact ceiling of that float); the number of calls and the
+    # agreement with the exact-ceiling instance (fn_config / gr_config) are compared as well; the recorded calls must be exactly the
+    # one quotient the table asks for (ceil_queries_ok), also where the answer is dominated by the max(…, 10^5) around it
+    calls = "(@nil (Z * Z * Z))" if not o["ceil_calls"] else "[" + "; ".join(f"({gz(n)}, {gz(d)}, {gz(r)})" for n, d, r in o["ceil_calls"]) + "]"
     if a["side"] == "f":
-        model = f"(fn_config {sp} {gz(o['size'])} {gz(o['nnz'])} {kind} {req})"
+        model = f"(fn_config_o (cd_obs {calls}) {sp} {gz(o['size'])} {gz(o['nnz'])} {kind} {req})"
+        exact = f"(fn_config {sp} {gz(o['size'])} {gz(o['nnz'])} {kind} {req})"
+        ncalls = f"(fn_ceil_calls {sp} {kind} {req})"
+        query = f"(fn_ceil_query {sp} {gz(o['size'])} {gz(o['nnz'])} {kind} {req})"
     else:
-        model = f"(gr_config {sp} {gz(o['size'])} {gz(o['nnz'])} {gz(a['max_iters'])} {kind} {req})"
+        model = f"(gr_config_o (cd_obs {calls}) {sp} {gz(o['size'])} {gz(o['nnz'])} {gz(a['max_iters'])} {kind} {req})"
+        exact = f"(gr_config {sp} {gz(o['size'])} {gz(o['nnz'])} {gz(a['max_iters'])} {kind} {req})"
+        # dense data with a stratified gradient sampler computes the default count before it rejects the request
+        ncalls = f"(gr_ceil_calls {gz(a['max_iters'])} {req})"
+        query = f"(gr_ceil_query {sp} {gz(o['size'])} {gz(o['nnz'])} {gz(a['max_iters'])} {kind} {req})"
     crng = "true"
     if c[0] != "error":
-        crng = f"Z.eqb (crng_len {model}) {gz(len(o['crng']))} && {'true' if o['crng'] == list(range(len(o['crng']))) else 'false'}"
-    return f"sconf_eqb {model} {obs} && {crng}"
+        from vcheck import gzlist
+        n = len(o["crng"])
+        if n <= 64:          # the correction range is arange(num_nonzeros): compared in Coq
+            crng = f"Z.eqb (crng_len {model}) {gz(n)} && vec_eqb {gzlist(o['crng'])} (map Z.of_nat (seq 0 {n}))"
+        else:                # long ranges (1000 entries): length in Coq, the entries as one harness-decided observation bit (memory of the shard)
+            crng = f"Z.eqb (crng_len {model}) {gz(n)} && obs_bits [{'true' if o['crng'] == list(range(n)) else 'false'}]"
+    return f"sconf_eqb {model} {obs} && sconf_eqb {model} {exact} && Nat.eqb {len(o['ceil_calls'])}%nat {ncalls} && ceil_queries_ok {calls} {query} && {crng}"
